@@ -24,7 +24,7 @@ CLAIMS = {
          "Lean characterisation proofs + differential correspondence against double-loop oracle"),
 }
 PENDING = {}
-ACTIVE = ["C04", "C18"]   # claimed now; the rest of CLAIMS is switched on when its theorems are in the build
+ACTIVE = ["C04", "C18", "C17", "C14"]   # claimed now; the rest of CLAIMS is switched on when its theorems are in the build
 def main():
     props = [json.loads(l) for l in open(os.path.join(V, "properties.jsonl"))]
     checks, na = [], []
